@@ -185,7 +185,8 @@ impl<const L: usize> Live<L> {
                     *x = serde_json::Value::from(n.checked_add(k).ok_or("stamp overflow")?);
                     Ok(())
                 };
-                bump(v.get_mut("queue_stamp").ok_or("no queue_stamp")?)?;
+                // (a snapshot layout without the counter - it can be rebuilt from the keys - is shifted through its keys alone)
+                if let Some(q) = v.get_mut("queue_stamp") { bump(q)?; }
                 for o in v.get_mut("orders").and_then(|o| o.as_array_mut()).ok_or("no orders")? {
                     bump(o.get_mut("key").and_then(|k| k.get_mut(2)).ok_or("no key")?)?;
                 }
